@@ -281,7 +281,35 @@ def check_reverse_chain_rule(ctx: Ctx) -> None:
         rm = [where(rules.enclosing_stmt(f, c)) for c in pops] + [where(d) for d in dels]
         ok = all(cfg.path(first_store, r_) is None or cfg.dominates(r_, first_store) for r_ in rm) and any(cfg.dominates(r_, first_store) for r_ in rm)
     ctx.ob("9.1-consume", con, ok, "the derivatives of an output with respect to the variables that the discipline COMPUTES must be removed from the row (they are replaced by their chain-rule products) before any contribution is stored: kept, they give wrong derivatives for overwritten variables and for disciplines updating several of their inputs", node=(pops or dels or [f])[0], stmt="blocks w.r.t. the discipline's outputs consumed before composing")
-    # the plain store is the else of the accumulation test
+    # ... all of them: the keys removed are the keys the chain rule then goes through
+    def iter_of_removal(c_: ast.AST):
+        for n_ in walk_body(f):
+            if isinstance(n_, (ast.DictComp, ast.ListComp, ast.SetComp, ast.GeneratorExp)) and any(x is c_ for x in ast.walk(n_)) and len(n_.generators) == 1 and not n_.generators[0].ifs:
+                return n_.generators[0].iter, n_
+        st_ = c_ if isinstance(c_, ast.stmt) else rules.enclosing_stmt(f, c_)
+        for lp in stmts_of(f):
+            if isinstance(lp, ast.For) and len(lp.body) == 1 and lp.body[0] is st_ and not lp.orelse:
+                return lp.iter, lp
+        return None, None
+
+    # the loop over the inner variables: it goes, for each of them, through the discipline's row `discipline.jac[<it>]`
+    chain_loops = [lp for lp in stmts_of(f) if isinstance(lp, ast.For) and isinstance(lp.target, ast.Name) and any(isinstance(l2, ast.For) and any(isinstance(x, ast.Subscript) and dotted(x.value) == "discipline.jac" and dotted(x.slice) == lp.target.id for x in ast.walk(l2.iter)) for b_ in lp.body for l2 in ast.walk(b_))]
+    if len(chain_loops) == 1:
+        def keyset(e: ast.AST, at: ast.AST) -> set[str]:
+            if isinstance(e, ast.Name) and sum(1 for n_ in walk_body(f) if isinstance(n_, ast.Name) and n_.id == e.id and isinstance(n_.ctx, ast.Store)) == 1:
+                return {e.id}  # a local bound once: the same list of keys wherever it is read
+            alts = unfolded(f, e)
+            if alts is None and isinstance(at, ast.For):
+                alts = unfolded(f, at, get=lambda l_: l_.iter)
+            return {norm_stmt(a_, 300).replace("sorted(", "(").replace("list(", "(").replace("tuple(", "(") for a_ in (alts or [e])}
+
+        want_keys = keyset(chain_loops[0].iter, chain_loops[0])
+        for c_ in [*pops, *dels]:
+            it_, host = iter_of_removal(c_)
+            if it_ is None:
+                continue
+            got_keys = keyset(it_, host)
+            ctx.ob("9.1-consume", con, got_keys == want_keys, f"the blocks removed from the row are those of `{', '.join(sorted(got_keys))}` while the chain rule goes through `{', '.join(sorted(want_keys))}`: a block that is composed but not removed is counted twice, one that is removed but not composed is lost", node=c_, stmt="the consumed blocks are the composed ones")
     # 9.2 ownership
     whole = [s for s in stmts_of(f) if isinstance(s, ast.Assign) and isinstance(s.targets[0], ast.Subscript) and dotted(s.targets[0].value) == "self.jac"]
     ctx.need(len(whole) == 1, "reverse_chain_rule: initialisation of a new output row not found")
@@ -973,6 +1001,7 @@ def _check_copy_jacs(ctx: Ctx, f) -> None:
 
 # ---------------------------------------------------------------------------
 WITNESSES = [
+    {"name": "consume-all-but-the-first-common-input", "file": "core/chains/chain.py", "old": "                    for input_name in common_inputs\n                }", "new": "                    for input_name in common_inputs[1:]\n                }", "expect": "9.1"},
     {"name": "overwritten-variable-block-kept", "file": CH, "old": "                consumed_jac = {\n                    input_name: self.jac[output_name].pop(input_name)\n                    for input_name in common_inputs\n                }\n", "new": "                consumed_jac = {\n                    input_name: self.jac[output_name][input_name]\n                    for input_name in common_inputs\n                }\n", "expect": "9.1"},
     {"name": "contribution-stored-over-existing-block", "file": CH, "old": "                        if new_in in self.jac[output_name]:\n", "new": "                        if new_in in self.jac[output_name] and input_name != new_in:\n", "expect": "9.1"},
     {"name": "product-reversed", "file": CH, "old": "                            loc_dot = curr_jac @ new_jac", "new": "                            loc_dot = new_jac @ curr_jac", "expect": "9.1"},
